@@ -74,6 +74,12 @@ def make_runner(mode, shape=None, nargs=0, nkeys=0, want=None, extra=2):
 
     def run(ctx, r):
         env['r'] = r
+        if mode == 'roundtrip':
+            # tier R: the REAL functions run natively over one slice of the enumerated universe
+            uni = rt_universe()
+            env['cases'] = [rt_case(specs, ret) for specs, ret in uni[shape[0]::shape[1]]]
+            r.outcome, r.value = 'return', None
+            return
         info = mk_sig(I, ctx, 's', shape, tracked=False, annotations=False)
         env['info'] = info
         if mode == 'bind':
@@ -152,11 +158,21 @@ def _mapping_goal(info, assigned, args, keys, vals):
 
 def vcs(env, want):
     r, I, mode = env['r'], env['interp'], env['mode']
-    info = env['info']
     out = []
 
     def on(c):
         return want is None or any(p in want for p in c.props)
+    if mode == 'roundtrip':
+        for text, bad in env['cases']:
+            for c in (R_NATIVE, R_MODS, R_FUNC):
+                if on(c):
+                    mine = [d for n, d in bad if n == c.name]
+                    v = VC(c.full + ':(' + text + ')', [], z3.BoolVal(not mine), c.props)
+                    out.append(v)
+                    if mine:
+                        env.setdefault('details', {})[v.name] = mine[:3]
+        return out
+    info = env['info']
     if mode == 'bind':
         args, keys, vals = env['args'], env['keys'], env['vals']
         acc = _accepts(info, keys, len(args))
@@ -244,6 +260,9 @@ def _native_bind(env, model):
 
 
 def replay(env, vc, model):
+    if env['mode'] == 'roundtrip':
+        d = env.get('details', {}).get(vc.name)
+        return dict(status='reproduced' if d else 'not-reproduced', op='support:roundtrip (native run of the real functions)', violated=d)
     if env['mode'] != 'bind':
         return dict(status='no-replay', op='support:' + env['mode'])
     sig, args, kw, got, real = _native_bind(env, model)
@@ -276,3 +295,121 @@ def crosscheck(env, r):
     if r.outcome == 'raise' and type(got[1]).__name__ != r.exc.typname:
         return 'symbolic raise %s, native %r' % (r.exc.typname, got[1])
     return None
+
+
+# --------------------------------------------------------------------------- tier R: the string <-> code helpers
+def rt_universe():
+    """(specs, return annotation) of every signature of the tier-R universe: names a b c d e, <=1 positional-only,
+    <=2 positional-or-keyword (defaults a suffix), *args or none, <=2 keyword-only (any defaults), **kwargs or none,
+    annotation patterns: none / first parameter / last parameter and return"""
+    import inspect
+    E = inspect.Signature.empty
+    out = []
+    for npo in (0, 1):
+        for npok in (0, 1, 2):
+            npos = npo + npok
+            for ndef in range(npos + 1):
+                for va in (0, 1):
+                    for nkwo in (0, 1, 2):
+                        for kmask in range(2 ** nkwo):
+                            for vk in (0, 1):
+                                for ann in (0, 1, 2):
+                                    names = iter('abcde')
+                                    specs = []
+                                    for i in range(npos):
+                                        kind = PO if i < npo else POK
+                                        has = i >= npos - ndef
+                                        specs.append([next(names), kind, has, 10 + i, False, None])
+                                    if va:
+                                        specs.append(['args', VP, False, None, False, None])
+                                    for j in range(nkwo):
+                                        specs.append([next(names), KWO, bool(kmask >> j & 1), 20 + j, False, None])
+                                    if vk:
+                                        specs.append(['kwargs', VK, False, None, False, None])
+                                    if not specs:
+                                        continue
+                                    ret = E
+                                    if ann == 1:
+                                        specs[0][4], specs[0][5] = True, 31
+                                    elif ann == 2:
+                                        specs[-1][4], specs[-1][5] = True, 32
+                                        ret = 33
+                                    out.append(([tuple(s) for s in specs], ret))
+    return out
+
+
+def _sig_data(sig, kwo_as_set=False):
+    import inspect
+    E = inspect.Parameter.empty
+    ps = [(p.name, int(p.kind), p.default if p.default is not E else '<none>', p.annotation if p.annotation is not E else '<none>')
+          for p in sig.parameters.values()]
+    if kwo_as_set:
+        ps = [p for p in ps if p[1] != KWO] + sorted(p for p in ps if p[1] == KWO)
+    return ps, (sig.return_annotation if sig.return_annotation is not inspect.Signature.empty else '<none>')
+
+
+def rt_case(specs, ret):
+    """the runtime contract of s / f / func_from_sig on one signature of the universe; returns [(clause, detail)]"""
+    import inspect
+    import warnings
+    from vf.concrete import make_function, real_sigtools
+    real_sigtools()
+    from sigtools import support, _util
+    bad = []
+    twin = make_function(specs, 'twin', ret)
+    exp = inspect.signature(twin)
+    body, sep, rtext = str(exp).rpartition(' -> ')
+    text = (body if sep else str(exp))[1:-1]
+    rarg = rtext if sep else _util.UNSET
+    has_po = any(k == PO for _, k, *_ in specs)
+    with warnings.catch_warnings():
+        warnings.simplefilter('ignore')
+        for future in ((), ('annotations',)):
+            # native spelling: always
+            try:
+                got = support.s(text, rarg, future_features=future).evaluated() if future else support.s(text, rarg)
+                if _sig_data(got) != _sig_data(exp):
+                    bad.append((R_NATIVE.name, 's(%r, future=%r) = %s, expected %s' % (text, future, got, exp)))
+            except Exception as e:
+                bad.append((R_NATIVE.name, 's(%r, future=%r) raises %r' % (text, future, e)))
+        try:
+            got = inspect.signature(support.func_from_sig(exp))
+            if _sig_data(got) != _sig_data(exp):
+                bad.append((R_NATIVE.name, 'func_from_sig(%s) = %s' % (exp, got)))
+        except Exception as e:
+            bad.append((R_NATIVE.name, 'func_from_sig(%s) raises %r' % (exp, e)))
+        if not has_po:
+            for ua, up, uk in itertools.product((False, True), repeat=3):
+                if not (ua or up or uk):
+                    continue
+                opts = dict(use_modifiers_annotate=ua, use_modifiers_posoargs=up, use_modifiers_kwoargs=uk)
+                try:
+                    got = support.s(text, rarg, **opts)
+                    if _sig_data(got, True) != _sig_data(exp, True):
+                        bad.append((R_MODS.name, 's(%r, %r) = %s, expected %s' % (text, opts, got, exp)))
+                except Exception as e:
+                    bad.append((R_MODS.name, 's(%r, %r) raises %r' % (text, opts, e)))
+        # f: the function returns its arguments keyed by parameter name
+        try:
+            fn = support.f(text, rarg)
+            names = [s[0] for s in specs if s[1] in (PO, POK, KWO)]
+            npos = sum(1 for s in specs if s[1] in (PO, POK))
+            for n in range(npos + 2):
+                for ks in itertools.chain.from_iterable(itertools.combinations(names + ['zz'], i) for i in range(min(3, len(names) + 2))):
+                    a, k = tuple(range(100, 100 + n)), {x: 'v_' + x for x in ks}
+                    try:
+                        want = ('ok', twin(*a, **k))
+                    except TypeError:
+                        want = ('TypeError', None)
+                    try:
+                        have = ('ok', fn(*a, **k))
+                    except TypeError:
+                        have = ('TypeError', None)
+                    if want != have:
+                        bad.append((R_FUNC.name, 'f(%r)(*%r, **%r) = %r, CPython twin %r' % (text, a, k, have, want)))
+                        raise StopIteration
+        except StopIteration:
+            pass
+        except Exception as e:
+            bad.append((R_FUNC.name, 'f(%r) raises %r' % (text, e)))
+    return text, bad
